@@ -238,6 +238,8 @@ func main() {
 	switch os.Args[1] {
 	case "repo":
 		cmdRepo(os.Args[2:])
+	case "sched":
+		cmdSched(os.Args[2:])
 	case "pool":
 		cmdPool(os.Args[2:])
 	case "disp":
